@@ -334,3 +334,25 @@ Proof.
 Qed.
 
 End Svm.
+
+(* the hypotheses of the step / history theorems are satisfiable: two points, K = identity,
+   cold start of a C-SVM with C = 1 (labels +1, -1), working set (0,1) *)
+Definition ex_K0 (p q : nat) : Q := if (p =? q)%nat then 1 else 0.
+Definition ex_s : qst :=
+  mk (fun _ => 0) (fun a => if (a =? 0)%nat then 1 else - (1))
+     (fun a => if (a =? 0)%nat then 1 else - (1)) (fun a => if (a =? 0)%nat then 1 else - (1))
+     (fun a => if (a =? 0)%nat then 0 else - (1)) (fun a => if (a =? 0)%nat then 1 else 0)
+     (fun a => a) (fun a => (a =? 0)%nat) (fun a => negb (a =? 0)%nat) 2 false.
+Example ex_hyps_sat :
+  Ksym ex_K0 /\ Inv_noshrink 2 ex_K0 ex_s /\ wf_run 2 ex_K0 true false ex_s [OSmo 0%nat 1%nat] /\
+  obj 2 ex_K0 ex_s < obj 2 ex_K0 (runQ 2 ex_K0 true false ex_s [OSmo 0%nat 1%nat]).
+Proof.
+  split; [|split; [|split]].
+  - intros p q. unfold ex_K0. rewrite (Nat.eqb_sym q p). reflexivity.
+  - split; [reflexivity|]. split; [|split].
+    + intros a Ha. destruct a as [|[|a]]; [vm_compute; reflexivity|vm_compute; reflexivity|simpl in Ha; lia].
+    + intros a Ha. destruct a as [|[|a]]; [vm_compute; split; discriminate|vm_compute; split; discriminate|simpl in Ha; lia].
+    + intros a Ha. destruct a as [|[|a]]; [vm_compute; auto|vm_compute; auto|simpl in Ha; lia].
+  - cbn. repeat split; try lia. vm_compute. discriminate.
+  - vm_compute. reflexivity.
+Qed.
